@@ -200,7 +200,8 @@ func probeOut(src string, o Out) string {
 	if o.Err != nil {
 		return "error:" + errClass(o.Err)
 	}
-	if strings.HasPrefix(src, "(documentation ") {
+	if strings.HasPrefix(src, "(documentation ") || strings.HasPrefix(src, "(with-output-to-string (s) (describe") {
+		// documentation is re-flowed by the printer and by describe
 		return flat(o.Val)
 	}
 	return o.Val
